@@ -187,7 +187,12 @@ impl<'a, 'tcx> Cx<'a, 'tcx> {
                 ProjectionElem::Deref => J::s("*"),
                 ProjectionElem::Field(f, _fty) => {
                     let name = self.field_name(pty, f.index());
-                    J::obj().set("f", J::Int(f.index() as i128)).set("n", J::s(name))
+                    let mut o = J::obj().set("f", J::Int(f.index() as i128)).set("n", J::s(name));
+                    // the struct/enum the field belongs to (lets the analysis identify a private field by its owner)
+                    if let ty::Adt(adt, _) = pty.ty.kind() {
+                        o.put("a", J::s(path_s(tcx, adt.did())));
+                    }
+                    o
                 }
                 ProjectionElem::Downcast(sym, vi) => {
                     let name = match pty.ty.kind() {
